@@ -454,6 +454,33 @@ def check_stale_data_pointer(ck, tu):
     return n
 
 
+def check_array_bounds(ck, tu):
+    """indices of the fixed-size bucket / splitter arrays of the sample sort classes, by interval analysis"""
+    from engine import intervals
+    n_fn = 0
+    for fn in tu.functions:
+        if fn.body is None or not fn.qname.startswith("tlx::sort_strings_detail::"):
+            continue
+        if not (fn.record and ("PS5" in fn.record or "SSClassify" in fn.record or "SSTreeBuilder" in fn.record)):
+            continue
+        bad, n_sites = intervals.fixed_array_findings(fn)
+        if not n_sites:
+            continue
+        n_fn += 1
+        seen = set()
+        for z, n, r in bad:
+            key = dtable.describe(z)
+            if key in seen:
+                continue
+            seen.add(key)
+            ck.violation("ARRAY-INDEX-BOUND", fn.qname, "%s:%s" % (fn.name, key),
+                         "%s is evaluated with an index in [%s, %s]; the array has %d elements" % (key, r[0], r[1], n), fn.nloc(z))
+        if not bad:
+            ck.ok("ARRAY-INDEX-BOUND", "%s::%s [%s]" % (fn.record.split("::")[-1], fn.name, inst(fn)),
+                  "%d subscripts of fixed-size arrays; every index bound that follows from the control flow is < size" % n_sites)
+    return n_fn
+
+
 def run(ck):
     ck.explanation = (
         "Sortedness and LCP values depend on values and are not decided. Decided ownership/ordering clauses: USE-AFTER-RELEASE - in every member "
@@ -479,6 +506,7 @@ def run(ck):
     check_copy_back(ck, tu)
     check_packed_lcp(ck, tu)
     check_stale_data_pointer(ck, tu)
+    ck.require(check_array_bounds(ck, tu) >= 10, "fixed-size arrays of the sample sort classes not found")
     ck.floor("PACKED-LCP-MASK", 12)
     ck.floor("USE-AFTER-RELEASE", 40)
     ck.floor("ADD-BEFORE-ENQUEUE", 12)
